@@ -135,7 +135,9 @@ class C18(Prop):
     rule = ('case = a DSL program: read_input / read_input_group (1-3 files; cloud URLs and LOCAL paths, the same local path often read '
             'several times), 1-4 bash jobs (names: none, short, equal, 240-260 characters, '
             'with characters safe_str rewrites) with optional declare_resource_group, 1-2 commands '
-            'each built from text fragments and references (inputs, group members, own and earlier jobs\' resources, whole groups), '
+            'each built from text fragments and references (item access j[\'…\'] with identifiers from a wide alphabet: colon, space, slash, dots, '
+            'leading dash, quotes, $, *, tab, upper/lower case, non-ASCII, 201 characters — in families that collide under plausible '
+            'normalisations; inputs, group members, own and earlier jobs\' resources, whole groups), '
             'PythonJobs calling a function with resource arguments; PythonResult conversions (as_str / as_repr / as_json, often several of '
             'one result) consumed by bash commands, python calls and write_output; single-member references of job-declared groups (bash and python) are '
             'frequent; add_extension, write_output; executed on the real classes, then ServiceBackend._async_run with a recording client; compared per '
@@ -144,7 +146,7 @@ class C18(Prop):
     trusted = ['fake aioclient Batch/BatchClient recording create_job kwargs', 'deterministic secret_alnum_string ("tk<n>") and uuid4',
                'ServiceBackend built without __init__ (no cloud credentials): remote_tmpdir, regions and the client are set by hand; '
                'validate_file is a no-op; rich.progress.track / get_deploy_config / copy_from_dict replaced by inert stand-ins']
-    assumptions = ['ASCII commands and names (Python \\d also matches non-ASCII digits)', 'BashJob pipelines; inputs given by URL',
+    assumptions = ['ASCII command texts and job names (Python \\d and str.isalnum are Unicode-aware); identifiers may be any string', 'BashJob pipelines; inputs given by URL',
                    'secret_alnum_string never repeats a token', 'commands below 10 KiB (no code.sh upload)']
 
     # ------------------------------------------------------------------------------------------ setup
@@ -181,6 +183,12 @@ class C18(Prop):
                 "gs://in/it's.txt", 'gs://other/x/g.bed', 'gs://in/trailing/']
     LOCAL_PATHS = ['/data/ref.fa', '/data/ref.fa', 'data/rel.txt', 'file:///data/s.txt', '/data/other/ref.fa']
     ATTRS = ['ofile', 'out', 'x', 'tmp1', 'res_2']
+    # identifiers only reachable through j['…'], in pairs / triples that collide under plausible "clean-ups" of the file name:
+    # non-alphanumerics -> '_', lower-casing, stripping, truncation, unicode folding, path normalisation
+    WIDE = [['chr1:100', 'chr1_100', 'chr1 100'], ['out 1', 'out_1'], ['Sample', 'sample', 'SAMPLE'], ['trail ', 'trail', ' trail'],
+            ['a/b', 'a_b', 'a//b'], ['.hidden', '_hidden', 'hidden'], ['-lead', '_lead'], ["it's", 'it_s', 'it"s'], ['x*y', 'x?y', 'x_y'],
+            ['\u00e9t\u00e9', 'ete', 'e\u0301te\u0301'], ['n' * 200 + 'A', 'n' * 200 + 'B'], ['a.b', 'a_b', 'a..b'], ['$HOME', '_HOME'],
+            ['stra\u00dfe', 'strasse'], ['tab\there', 'tab here', 'tab_here']]
     TEMPLATES = ['{root}.bed', '{root}.bim', '{root}', '{root}.vcf.gz', '{root}.vcf.gz.tbi', 'fixed.txt', '{root}.v{root}']
 
     NAMES = [None, 'p', 'c', 'c', 'align', 'my job!', 'x-1', 'a/b c.d', 'x_y-z', 'p']
@@ -300,6 +308,7 @@ class C18(Prop):
                 continue
             prog.append({'op': 'job', 'name': name})
             jobs.append(info)
+            wide = rng.choice(self.WIDE) if rng.random() < 0.3 else None     # this job uses a family of near-identical identifiers
             if rng.random() < 0.35:
                 gname = rng.choice(['out', 'tmp1', 'grp'])
                 idents = rng.sample(['bed', 'bim', 'fam', 'log'], rng.choice([1, 2, 3]))
@@ -327,6 +336,11 @@ class C18(Prop):
                             ref = ['h', k]
                     elif r < 0.6 and j > 0:
                         ref = self._foreign_ref(rng, j, jobs, handles, inputs=False)
+                    if ref is None and wide is not None and rng.random() < 0.75:
+                        a = rng.choice(wide)
+                        ref = ['a', j, a]
+                        info['attrs'].setdefault(a, 'file')
+                        info['valid'].add(a)
                     if ref is None:
                         a = rng.choice(self.ATTRS + sorted(info['attrs']))
                         kind = info['attrs'].get(a, 'file')
@@ -440,10 +454,10 @@ class C18(Prop):
         if r[0] == 'm':
             return getattr(env['handles'][r[1]], r[2])
         if r[0] == 'a':
-            return getattr(env['jobs'][r[1]], r[2])
+            return env['jobs'][r[1]][r[2]]          # item access: any string is an identifier (j.x is j['x'])
         if r[0] == 'c':
             return getattr(env['results'][r[1]][r[2]], 'as_' + r[3])()
-        return getattr(getattr(env['jobs'][r[1]], r[2]), r[3])
+        return env['jobs'][r[1]][r[2]][r[3]]
 
     def _run(self, c):
         key = json.dumps(c, sort_keys=True)
@@ -562,7 +576,7 @@ class C18(Prop):
                                 mentions.append((s['j'], len(j._command), resolved))
                             j.command(text)
                         elif op == 'ext':
-                            getattr(env['jobs'][s['j']], s['name']).add_extension(s['ext'])
+                            env['jobs'][s['j']][s['name']].add_extension(s['ext'])
                         elif op == 'out':
                             r = self._resolve(env, s['ref'])
                             b.write_output(r, s['dest'])
@@ -928,6 +942,9 @@ class C18(Prop):
                 tags.append('has-' + s['op'])
         if member_only - groups_whole:
             tags.append('has-member-only-reference')
+        idents = {p[2] for s in prog if s['op'] == 'cmd' for p in s['pieces'] if p[0] == 'a'}
+        if any(not i.isidentifier() for i in idents):
+            tags.append('has-non-python-identifier')
         in_paths = [s['path'] for s in prog if s['op'] == 'input'] + [p for s in prog if s['op'] == 'igroup' for _, p in s['files']]
         local_paths = [p for p in in_paths if self._is_local(p)]
         if local_paths:
